@@ -415,6 +415,13 @@ func genHist(rng *core.Rand) string {
 				remote = rng.Pick([]string{"a2", "a3"}) + "=."
 			}
 		}
+		// loads that are REJECTED LATE (after the local endpoint was replaced): an app that cannot be
+		// provisioned, or an access list entry whose public key cannot be decoded
+		if local != "n" && local != "b" && rng.Chance(1, 4) {
+			local += "!"
+		} else if remote != "~" && rng.Chance(1, 5) {
+			remote = "x" + remote[1:]
+		}
 		steps = append(steps, local+"@"+remote)
 	}
 	return "hist " + strings.Join(steps, " ")
@@ -445,6 +452,11 @@ func (p *prop) Generate(rng *core.Rand, tier string, emit func(string)) {
 	emit("hist a0@a2=0/. b@~ d@~")
 	emit("hist t0@~ b@~ a0@~ b@~ b@~ t0@~ t1@~")
 	emit("hist a0@a2=0/. a0@a2=1/" + core.Hex("POST") + "|~ a0@a2=. n@~")
+	// loads rejected late: while provisioning apps (!) / for an undecodable remote public key (x)
+	emit("hist a0@a2=0/. t0@x2=1/. a0@~")
+	emit("hist a0@a2=0/. d!@a3=1/. a0@a2=0/.")
+	emit("hist t0@~ t0!@~ b@~ a1@~ a1!@x3=2/.")
+	emit("hist a0@a2=0/. a0@x2=. a0!@~ a0@a2=1/.")
 	nh := 10
 	if tier == "thorough" {
 		nh = 150
